@@ -277,7 +277,6 @@ def race_lemma():
     ob = Obligation('assemble_tools_cy:prange:disjoint-write-rows', 'lemma', 0, hyp, goal,
                     'two distinct iterations of prange(MU0) never write the same row of `entries` (bidx rows pairwise distinct, transp = index of the reversed pair)', src=F)
     return [ob], None
-CONTRACTS = CONTRACTS_BASE + VEC_KERNELS
 
 
 # ---- frame of the kernels the chunk/prange drivers call: entry_impl / combine write only locals and result[...] ----------------
@@ -346,3 +345,147 @@ def kernel_frame_obligations():
     if n < 28:
         raise KeyError('expected entry_impl and combine of 14 shipped assemblers, found %d kernels' % n)
     return obs, None
+
+
+# ---- lexicographic iteration used by assemble_vector ----------------------------------------------------------------------------
+
+def _nextlex(d):
+    def req(s):
+        return [And(*[And(s.start[k] <= s.cur[k], s.cur[k] < s.end[k]) for k in range(d)])]
+
+    def post(s):
+        c0, c1 = s.old.cur, s.cur
+        succ = Or(*[And(*([c1[k] == c0[k] for k in range(p)] + [c1[p] == c0[p] + 1, c1[p] < s.end[p]] +
+                          [And(c0[k] == s.end[k] - 1, c1[k] == s.start[k]) for k in range(p + 1, d)])) for p in range(d)])
+        last = And(*[c0[k] == s.end[k] - 1 for k in range(d)])
+        return [('successor-or-last', If(s.result != 0, succ, last)),
+                ('result-is-0-or-1', Or(s.result == 0, s.result == 1)),
+                ('stays-in-the-box', Implies(s.result != 0, And(*[And(s.start[k] <= c1[k], c1[k] < s.end[k]) for k in range(d)])))]
+    return Contract(
+        F, 'next_lexicographic%d' % d, name='assemble_tools_cy:next_lexicographic%d' % d,
+        params={'cur': Arr('int', 1, shape=(d,), elem_range=(0, 2**40)), 'start': Arr('int', 1, shape=(d,), elem_range=(0, 2**40)),
+                'end': Arr('int', 1, shape=(d,), elem_range=(0, 2**40))},
+        requires=req, modifies=('cur',), ensures=post, result=Int(),
+        options={'timeout_ms': 20000},
+        notes=['cur is advanced to its lexicographic successor inside the box [start, end) (last axis fastest); result 0 iff cur was the last multi-index'],
+    )
+
+
+NEXT_LEX = [_nextlex(d) for d in (1, 2, 3)]
+
+
+def ravel_successor_lemma():
+    """the lexicographic successor in a box [0,n) has raveled (row-major) index + 1: assemble_vector's `out += 1` walks the result array in step
+    with next_lexicographic, so every entry is written exactly once, at its own raveled position, and the walk ends at the last element"""
+    from pyvc.symexec import Obligation
+    obs = []
+    for d in (1, 2, 3):
+        n = [z3.Int('n%d' % k) for k in range(d)]
+        a = [z3.Int('a%d' % k) for k in range(d)]
+        b = [z3.Int('b%d' % k) for k in range(d)]
+
+        def rav(x):
+            r = x[0]
+            for k in range(1, d):
+                r = r * n[k] + x[k]
+            return r
+        hyp = [And(*[And(0 <= a[k], a[k] < n[k], n[k] <= 2**20) for k in range(d)])]
+        succ = Or(*[And(*([b[k] == a[k] for k in range(p)] + [b[p] == a[p] + 1, b[p] < n[p]] +
+                          [And(a[k] == n[k] - 1, b[k] == 0) for k in range(p + 1, d)])) for p in range(d)])
+        obs.append(Obligation('assemble_tools_cy:assemble_vector:ravel-successor[dim=%d]' % d, 'lemma', 0, hyp + [succ], rav(b) == rav(a) + 1,
+                              'ravel(successor(I)) == ravel(I) + 1 for multi-indices of a %dD box' % d, src=F))
+        last = And(*[a[k] == n[k] - 1 for k in range(d)])
+        tot = n[0]
+        for k in range(1, d):
+            tot = tot * n[k]
+        obs.append(Obligation('assemble_tools_cy:assemble_vector:ravel-last[dim=%d]' % d, 'lemma', 0, hyp + [last], rav(a) == tot - 1,
+                              'the last multi-index has raveled index size-1 (the pointer never leaves the array)', src=F))
+    return obs, None
+
+
+CONTRACTS = CONTRACTS_BASE + VEC_KERNELS + NEXT_LEX
+
+
+# ---- assemble_vector: the pointer walk visits every entry of the result exactly once, in raveled order --------------------------
+
+_entry1_fns = {}
+
+
+def Entry1(idx, t):
+    """value entry_impl stores for the multi-index idx (a list of ints) and component t: one uninterpreted function per dimension"""
+    d = len(idx)
+    if d not in _entry1_fns:
+        _entry1_fns[d] = z3.Function('entry1_value_%dd' % d, *([z3.IntSort()] * (d + 1) + [z3.RealSort()]))
+    return _entry1_fns[d](*([to_z3(i) for i in idx] + [to_z3(t)]))
+
+
+def _entry1_spec(ncomp):
+    """arity-1 entry_impl(I, NULL, p): call-site precondition `p addresses element I of the (C-contiguous) result array`; effect: that element
+    (resp. its ncomp components) receives Entry1(I, t).  Writing through the multi-index avoids un-flattening the address by division."""
+    def spec(ex, st, call, I, J, ptr, **k):
+        ci, c = st.heap[I.id], st.heap[ptr.ref.id]
+        d = len(c.shape) - (1 if ncomp > 1 else 0)
+        idx = [z3.Select(ci.data, k_) for k_ in range(d)]
+        flat = idx[0]
+        for k_ in range(1, d):
+            flat = flat * to_z3(c.shape[k_]) + idx[k_]
+        if ncomp > 1:
+            flat = flat * to_z3(c.shape[d])
+        ex.oblige(st, 'pre', call, And(to_z3(ptr.offset) == flat, *[And(idx[k_] >= 0, idx[k_] < to_z3(c.shape[k_])) for k_ in range(d)]),
+                  'the output pointer addresses element I of the result array', label='entry_impl:pointer-at-I:L+%d' % ex.rel(call))
+        for t in range(ncomp):
+            c.data = arr_store(c.data, idx + ([t] if ncomp > 1 else []), Entry1(idx, t))
+        return None
+    spec.writes = (2,)
+    return spec
+
+
+def _asm_vector(dim, nc=None):
+    def rav(idx, n):
+        r = idx[0]
+        for k in range(1, dim):
+            r = r * n[k] + idx[k]
+        return r
+
+    def lexless(a, b):
+        """multi-index a strictly before b in lexicographic order"""
+        return Or(*[And(*([a[k] == b[k] for k in range(p)] + [a[p] < b[p]])) for p in range(dim)])
+
+    def inv(s):
+        n = [s.self.S0_ndofs[k] for k in range(dim)]
+        I = [s.I[k] for k in range(dim)]
+        R = s._result
+        names = ' '.join('a%d' % k for k in range(dim))
+        inbox = lambda a: And(*[And(0 <= a[k], a[k] < n[k]) for k in range(dim)])
+        return [('target', s.out.ref is s._result.ref), ('I-in-box', inbox(I)), ('pointer-at-I', s.out.offset == (rav(I, n) * nc if nc else rav(I, n))),
+                ('zero', And(*[s.zero[k] == 0 for k in range(dim)])),
+                ('shape', And(*([R.shape[k] == n[k] for k in range(dim)] + ([R.shape[dim] == nc, s.self.numcomp[0] == nc] if nc else [])))),
+                ('done-before-I', ForAll(names, lambda *a: Implies(And(inbox(a), lexless(a, I)),
+                                                                   And(*[R[tuple(a) + ((t,) if nc else ())] == Entry1(list(a), t) for t in range(nc or 1)]))))]
+
+    def post(s):
+        n = [s.self.S0_ndofs[k] for k in range(dim)]
+        names = ' '.join('a%d' % k for k in range(dim))
+        inbox = lambda a: And(*[And(0 <= a[k], a[k] < n[k]) for k in range(dim)])
+        return [('every-entry-is-its-own-value', ForAll(names, lambda *a: Implies(inbox(a), And(*[s.result[tuple(a) + ((t,) if nc else ())] == Entry1(list(a), t)
+                                                                                                   for t in range(nc or 1)]))))]
+
+    cls = 'BaseVectorAssembler%dD' % dim if nc else 'BaseAssembler%dD' % dim
+    obj = dict(arity=Int(), S0_ndofs=Arr('int', 1, shape=(dim,), elem_range=(1, 2**10)))
+    if nc:
+        obj['numcomp'] = Arr('int', 1, shape=(2,), elem_range=(1, 8))
+    return Contract(
+        F, '%s.assemble_vector' % cls, name='assemble_tools_cy:%s.assemble_vector%s' % (cls, '[%d components]' % nc if nc else ''),
+        params={'self': Obj(**obj)},
+        requires=lambda s: [s.self.arity == 1] + ([s.self.numcomp[0] == nc] if nc else []),
+        callees={'self.entry_impl': _entry1_spec(nc or 1), 'next_lexicographic%d' % dim: NEXT_LEX[dim - 1]},
+        loops={0: LoopSpec(r'while True', inv=inv)},
+        ensures=post,
+        options={'timeout_ms': 60000, 'no_return_ok': True},
+        notes=['entry_impl(I, NULL, p) is replaced by its frame contract: it stores Entry1(I) to p[0]; next_lexicographic is used through its contract',
+               'the dof counts are at least 1 (a knot vector has at least one basis function) and at most 2^10 per axis (keeps the products linear-size for the solver)'],
+    )
+
+
+ASM_VECTOR = [_asm_vector(d) for d in (1, 2, 3)] + [_asm_vector(d, nc) for d in (1, 2, 3) for nc in (2, 3)]
+CONTRACTS = CONTRACTS + ASM_VECTOR
